@@ -43,37 +43,37 @@ def profile(**over):
 
 PROFILES = {
     "default": profile(),
-    "C01": profile(unicode_p=0.3, literal_ids=2, share_ids_p=0.06, jumps=[-30.0, -2.0, -0.5, 0.5, 30.0],
+    "C01": profile(crash_p=0.008, unicode_p=0.3, literal_ids=2, share_ids_p=0.06, jumps=[-30.0, -2.0, -0.5, 0.5, 30.0],
                    w={"add": 14, "open": 10, "drop": 4, "reconnect": 5, "adv_phase": 1.2, "adv_long": 0.8,
                       "restart": 1.5, "kill": 0.6, "close": 6, "reuse": 1.5, "jump": 0.4, "boundary": 1.0, "revenant": 0.5}),
-    "C02": profile(nsides=(2, 3), autoping_p=0.4, names=2, literal_ids=1, napps=(1, 2), share_ids_p=0.06, unicode_p=0.25, big_p=0.02,
+    "C02": profile(crash_p=0.008, nsides=(2, 3), autoping_p=0.4, names=2, literal_ids=1, napps=(1, 2), share_ids_p=0.06, unicode_p=0.25, big_p=0.02,
                    jumps=[-30.0, -2.0, -0.5, 0.5, 30.0],
                    w={"jump": 0.5, "add": 14, "open": 10, "connect": 10, "adv_sweep": 3, "restart": 2.0, "kill": 0.6,
                       "stall": 0.6, "reconnect": 5, "close": 3, "release": 2, "persona": 1, "split": 2.0, "late_claim": 0.7, "reuse": 1.0}),
-    "C03": profile(names=3, w={"claim": 14, "allocate": 4, "release": 8, "restart": 1.5, "reconnect": 4, "late_claim": 2.0,
+    "C03": profile(crash_p=0.012, names=3, w={"claim": 14, "allocate": 4, "release": 8, "restart": 1.5, "reconnect": 4, "late_claim": 2.0,
                                "resend": 3, "close": 5, "adv_long": 0.8, "add": 3}),
-    "C04": profile(allow_list_p=0.5, napps=(1, 2), case_app_p=0.3, choice_modes=["faithful", "min", "max", "keyed"],
+    "C04": profile(crash_p=0.008, allow_list_p=0.5, napps=(1, 2), case_app_p=0.3, choice_modes=["faithful", "min", "max", "keyed"],
                    randrange_modes=["faithful", "collide"], steps=(6, 30), names=6,
                    w={"allocate": 16, "bulk": 0.9, "exhaust": 1.2, "claim": 5, "release": 6, "connect": 10, "list": 3,
                       "adv_long": 0.5, "add": 2, "open": 2, "close": 3, "persona": 0.5}),
-    "C05": profile(nsides=(3, 4), names=2, literal_ids=1, napps=(1, 2), jumps=[-3600.0, -30.0, -1.0, 1.0, 30.0],
+    "C05": profile(crash_p=0.012, nsides=(3, 4), names=2, literal_ids=1, napps=(1, 2), jumps=[-3600.0, -30.0, -1.0, 1.0, 30.0],
                    usage_p=0.3,
                    w={"third": 6, "jump": 0.5, "reuse": 1.5, "revenant": 1.5, "claim": 8, "open": 9, "close": 6, "release": 4, "reconnect": 5, "resend": 4,
                       "drop": 4, "restart": 1.0, "add": 6}),
     "C06": profile(napps=(2, 3), names=2, literal_ids=2, share_ids_p=0.12, numeric_app_p=0.15, case_app_p=0.2,
                    w={"restart": 1.5, "adv_sweep": 1.5, "adv_long": 1.2, "connect_unbound": 1.5, "split": 1.5,
                       "late_claim": 1.0, "idle_sub": 0.5, "dormant": 1.2}),
-    "C07": profile(names=4, nsides=(2, 3),
+    "C07": profile(crash_p=0.012, names=4, nsides=(2, 3),
                    w={"claim": 12, "allocate": 5, "release": 10, "list": 5, "close": 6, "open": 5, "add": 3,
                       "reconnect": 4, "resend": 2}),
-    "C08": profile(nsides=(2, 2), names=3,
+    "C08": profile(crash_p=0.012, nsides=(2, 2), names=3,
                    w={"close": 12, "claim": 8, "open": 9, "release": 5, "add": 6, "reconnect": 6, "resend": 5,
                       "drop": 4, "persona": 3}),
-    "C09": profile(usage_p=0.6, w={"persona": 3, "adv_sweep": 2, "bad": 1.5, "idle_sub": 1.0}),
-    "C12": profile(autoping_p=0.5, steps=(12, 50), names=3, odd_app_p=0.15,
+    "C09": profile(crash_p=0.01, usage_p=0.6, w={"persona": 3, "adv_sweep": 2, "bad": 1.5, "idle_sub": 1.0}),
+    "C12": profile(crash_p=0.012, autoping_p=0.5, steps=(12, 50), names=3, odd_app_p=0.15,
                    w={"adv_phase": 5, "adv_sweep": 5, "adv_min": 4, "adv_long": 1.5, "stall": 0.8, "add": 8,
                       "open": 8, "restart": 1.0, "kill": 0.4, "drop": 3, "jump": 0.3, "close": 2, "release": 2, "split": 1.0, "idle_sub": 1.0, "late_claim": 1.0}),
-    "C13": profile(quiesce_p=1.0, steps=(8, 40), jumps=[0.5, 30.0, 700.0, 3600.0], share_ids_p=0.08,
+    "C13": profile(crash_p=0.02, quiesce_p=1.0, steps=(8, 40), jumps=[0.5, 30.0, 700.0, 3600.0], share_ids_p=0.08,
                    w={"dbfault": 0.8, "jump": 0.3, "adv_sweep": 2.5, "adv_long": 1.0, "third": 1.5, "reconnect": 4, "resend": 2,
                       "drop": 4, "close": 6}),
     "C15": profile(usage_p=1.0, nsides=(2, 4), steps=(10, 45),
@@ -764,6 +764,18 @@ class Gen(object):
         steps = self._choose()
         if not steps:
             steps = [self.time_step("adv_small")]
+        # sometimes the server process dies in the middle of the last command (before one of its
+        # database calls) and is started again on what the files hold
+        if self.w.get("kill", 0) > 0 and self.rng.random() < self.p.get("crash_p", 0.0):
+            last = steps[-1]
+            if last["op"] == "send" and isinstance(last.get("m"), dict) and \
+                    last["m"].get("type") in ("claim", "release", "open", "add", "close", "allocate"):
+                st = {"op": "crash", "c": last["c"], "m": last["m"], "after": self.rng.randint(1, 16)}
+                if self.rng.random() < 0.3:
+                    st["down"] = round(self.rng.choice([0.5, 30.0, 200.0, 700.0]) * (0.5 + self.rng.random()), 3)
+                steps[-1] = st
+                for c in self.conns.values():
+                    c.alive = False
         # sometimes coalesce consecutive sends of one connection into one segment
         if len(steps) >= 2 and self.rng.random() < self.p["batch_p"]:
             steps = self._batchify(steps)
